@@ -272,10 +272,14 @@ class Properties:
                         and (v < 0 or v > 65535):
 
                     raise MQTTException(f"{name} property value must be in the range 0-65535")
-                elif name in ["MaximumPacketSize", "SubscriptionIdentifier"] \
+                elif name in ["SubscriptionIdentifier"] \
                         and (v < 1 or v > 268435455):
 
                     raise MQTTException(f"{name} property value must be in the range 1-268435455")
+                elif name in ["MaximumPacketSize"] \
+                        and (v < 1 or v > 4294967295):
+
+                    raise MQTTException(f"{name} property value must be in the range 1-4294967295")
                 elif name in ["RequestResponseInformation", "RequestProblemInformation", "PayloadFormatIndicator"] \
                         and (v != 0 and v != 1):
 
